@@ -420,3 +420,17 @@ func (d *Decls) LitText(sym string) (string, bool) {
 	}
 	return "", false
 }
+
+// MapLen: the length of a map as a function of its key set (sort ks), with the
+// facts that make len(m) == 0 and "m has no key" the same thing.
+func (d *Decls) MapLen(ks string) string {
+	f := d.UF("maplen_"+mangle(ks), []string{fmt.Sprintf("(Array %s Bool)", ks)}, "Int")
+	d.Axiom("maplen_"+mangle(ks), fmt.Sprintf("(forall ((a (Array %s Bool))) (! (>= (%s a) 0) :pattern ((%s a))))", ks, f, f))
+	d.Axiom("maplen0_"+mangle(ks), fmt.Sprintf("(= (%s ((as const (Array %s Bool)) false)) 0)", f, ks))
+	// a map with a key has positive length
+	d.Axiom("maplenpos_"+mangle(ks), fmt.Sprintf("(forall ((a (Array %s Bool)) (k %s)) (! (=> (select a k) (> (%s a) 0)) :pattern ((select a k) (%s a))))", ks, ks, f, f))
+	// a map of positive length has a key
+	wit := d.UF("mapwit_"+mangle(ks), []string{fmt.Sprintf("(Array %s Bool)", ks)}, ks)
+	d.Axiom("maplenwit_"+mangle(ks), fmt.Sprintf("(forall ((a (Array %s Bool))) (! (=> (> (%s a) 0) (select a (%s a))) :pattern ((%s a))))", ks, f, wit, f))
+	return f
+}
